@@ -342,13 +342,71 @@ func envSmall() interface{} {
 	return map[string]interface{}{"n": 1, "s": "z", "b": false, "l": []int{9}}
 }
 
+// "alt" environments bind the SAME names as the standard ones to OTHER types, so a
+// type-generic source text can be compiled on one engine under different typings.
+type Inner2 struct {
+	ID   string `yae:"id"`
+	Name int    `yae:"name"`
+	Tags []int  `yae:"tags"`
+}
+
+type WithMaybe2 struct {
+	A string  `yae:"a"`
+	B *string `yae:"b,maybe"`
+	C *int    `yae:"c,maybe"`
+}
+
+type EnvStruct2 struct {
+	N  string            `yae:"n"`
+	X  string            `yae:"x"`
+	S  int               `yae:"s"`
+	B  bool              `yae:"b"`
+	L  []string          `yae:"l"`
+	Ls []int             `yae:"ls"`
+	M  map[string]string `yae:"m"`
+	Mi map[int]int       `yae:"mi"`
+	O  Inner2            `yae:"o"`
+	P  *WithMaybe2       `yae:"p"`
+	T  time.Time         `yae:"t"`
+	Ll [][]string        `yae:"ll"`
+	Lo []Inner2          `yae:"lo"`
+	Mo map[string]Inner2 `yae:"mo"`
+}
+
+func strp(s string) *string { return &s }
+
+func envAltStruct() interface{} {
+	return &EnvStruct2{
+		N: "forty", X: "two", S: 7, B: true,
+		L: []string{"c", "a", "b", "c"}, Ls: []int{1, 2, 1},
+		M:  map[string]string{"k1": "a", "k2": "b", "k3": "c", "k4": "d"},
+		Mi: map[int]int{1: 10, 2: 20, 3: 30},
+		O:  Inner2{"seven", 7, []int{1, 2}},
+		P:  &WithMaybe2{A: "x", B: strp("five"), C: nil},
+		T:  time.Unix(1600000000, 0),
+		Ll: [][]string{{"a", "b"}, {"c"}},
+		Lo: []Inner2{{"a", 1, []int{}}, {"b", 2, []int{3}}},
+		Mo: map[string]Inner2{"u": {"a", 1, []int{4}}, "v": {"b", 2, []int{5}}},
+	}
+}
+
+func envAltMap() interface{} {
+	e := envAltStruct().(*EnvStruct2)
+	return map[string]interface{}{
+		"n": e.N, "x": e.X, "s": e.S, "b": e.B, "l": e.L, "ls": e.Ls, "m": e.M, "mi": e.Mi,
+		"o": e.O, "p": e.P, "t": e.T, "ll": e.Ll, "lo": e.Lo, "mo": e.Mo,
+	}
+}
+
 var envMakers = map[string]func() interface{}{
+	"alt":       envAltMap,
+	"altstruct": envAltStruct,
 	"none":   func() interface{} { return nil },
 	"map":    envStdMap,
 	"struct": envStdStruct,
 	"small":  envSmall,
 }
-var envNames = []string{"map", "struct", "none", "small"}
+var envNames = []string{"map", "struct", "none", "small", "alt", "altstruct"}
 
 // deepSnapshot renders a host value for the "host data not modified" invariant.
 func deepSnapshot(v interface{}) string {
@@ -406,96 +464,119 @@ func snapRV(rv reflect.Value, d int) string {
 // programs
 
 type Prog struct {
-	Src  string `json:"src"`
-	Env  string `json:"env"`            // key into envMakers
-	User bool   `json:"user,omitempty"` // needs an engine with user functions
+	Src     string `json:"src"`
+	Env     string `json:"env"`               // key into envMakers
+	User    bool   `json:"user,omitempty"`    // needs an engine with user functions
+	Generic bool   `json:"generic,omitempty"` // well-typed under the standard AND the "alt" typing of the names
+}
+
+// type-generic programs: the same source resolves to other overloads / other
+// instantiations depending on the environment it is compiled against.
+var genericSrcs = []string{
+	"n == x", "n != n", "n + x", "l == l", "[l, l]", "[n, x] == l", "len(l) + len(ls)",
+	"string(n) + string(l)", "get(l, 0, l[1])", "get(m, \"k1\", m[\"k2\"])", "if(b, n, x)", "b ? l : [n]",
+	"{a: n, b: l}", "[n, x]", "union(l, [n])", "intersect(l, [l[0], x])", "diff(l, l)", "isset(m, \"k1\") && isset(mi, 1)",
+	"get(mi, 1, mi[2])", "o.id == o.id", "[o.id, o.id]", "string(o)", "len(ll[0])", "lo[0].name == lo[1].name",
+	"mo[\"u\"].id", "[n: l, x: l]", "get(p.b, p.a)", "[p.a, get(p.b, p.a)]", "union(lo, lo) == lo", "m == m && mi == mi",
+	"[m[\"k1\"], m[\"k2\"]] == [m[\"k1\"], m[\"k2\"]]", "string([n: x])", "print(n) == n",
+}
+var genericUserSrcs = []string{
+	"tr(n) == n", "first(l, n)", "when(b, n, x)", "[tr(n), tr(x)]", "when(orelse(b, false), first(l, x), n)",
+}
+var genericEnvs = []string{"map", "struct", "alt", "altstruct"}
+
+func pickGeneric(r *rng, user bool) Prog {
+	if user && r.chance(0.4) {
+		return Prog{genericUserSrcs[r.intn(len(genericUserSrcs))], genericEnvs[r.intn(4)], true, true}
+	}
+	return Prog{genericSrcs[r.intn(len(genericSrcs))], genericEnvs[r.intn(4)], false, true}
 }
 
 // fixed pool: every documented feature at least once, plus some ill-typed ones.
 var progPool = []Prog{
-	{"1 + 2 * 3", "none", false},
-	{"n + x * 2 - 1", "map", false},
-	{"(n - 2) % 5 == 0 && b", "map", false},
-	{"if(n > 40, s, \"no\")", "map", false},
-	{"n > 100 ? \"big\" : n > 10 ? \"mid\" : \"small\"", "struct", false},
-	{"b || l[10] > 0", "map", false},
-	{"!b && l[10] > 0", "map", false},
-	{"len(l) + len(s) + len(m)", "map", false},
-	{"l.len() + s.len()", "struct", false},
-	{"get(l, 1, 0) + get(l, 99, -1)", "map", false},
-	{"get(m, \"k2\", 0) + get(m, \"zz\", 7)", "map", false},
-	{"get(mi, 2, \"none\")", "struct", false},
-	{"isset(m, \"k1\") && !isset(m, \"nope\")", "map", false},
-	{"if(isset(m, \"q\"), m[\"q\"], -1)", "map", false},
-	{"m[\"k3\"] + mi.len()", "struct", false},
-	{"o.id + o.name.len()", "map", false},
-	{"o.tags[1] + \"!\"", "struct", false},
-	{"get(p.b, 0) + p.a", "map", false},
-	{"get(p.c, \"dflt\")", "struct", false},
-	{"[1, 2, 3] == l", "map", false},
-	{"[\"k1\": 1, \"k2\": 2, \"k3\": 3, \"k4\": 4] == m", "map", false},
-	{"union(l, [5, 1])", "map", false},
-	{"intersect(l, [3, 2, 7])", "struct", false},
-	{"diff(l, [3])", "map", false},
-	{"union(ls, [\"c\"]) == [\"a\", \"b\", \"c\"]", "map", false},
-	{"max(l) - min(l) + max(n, x)", "map", false},
-	{"abs(0 - x) + ceil(x) + floor(x) + round(x)", "struct", false},
-	{"2 ^ 3 ^ 2", "none", false},
-	{"string(n) + string(b) + string(x)", "map", false},
-	{"string(l)", "map", false},
-	{"string(m)", "map", false},
-	{"string(o)", "struct", false},
-	{"string([1: [\"a\": 1, \"b\": 2], 2: [\"c\": 3, \"d\": 4]])", "none", false},
-	{"match(\"^h.*o$\", s)", "map", false},
-	{"match(\"^[0-9]+$\", string(n))", "struct", false},
-	{"{id: n, name: s, inner: {l: l, m: m}}", "map", false},
-	{"{id: n, name: s}.name", "struct", false},
-	{"[{a: 1, b: \"x\"}, {a: 2, b: \"y\"}][1].b", "none", false},
-	{"[n: s, n + 1: \"t\"]", "map", false},
-	{"[[1, 2], [3], l]", "map", false},
-	{"ll[0][1] + ll[1][0]", "struct", false},
-	{"lo[1].name + lo[0].tags.len().string()", "map", false},
-	{"mo[\"u\"].id + mo[\"v\"].id", "struct", false},
-	{"'2020-01-02 03:04:05' < '2020-01-02 03:04:06'", "none", false},
-	{"t - '2020-09-13 12:26:40 UTC'", "map", false},
-	{"strtotime(\"2021-05-06 07:08:09 UTC\") > t", "struct", false},
-	{"strtotime(\"2021-05-06 07:08:09 Asia/Tokyo\") - strtotime(\"2021-05-06 07:08:09 Europe/Paris\")", "none", false},
-	{"strtotime(\"@86400\") == '1970-01-02 00:00:00 UTC'", "none", false},
-	{"'2022-02-03T04:05:06+08:00' >= t", "map", false},
-	{"[] == l || [:] == m", "map", false},
-	{"len([]) + len([:])", "none", false},
-	{"get([], 0, 5)", "none", false},
-	{"-n + +x", "map", false},
-	{"n >= 42 && n <= 42 && n != 41 && x < 3", "struct", false},
-	{"\"a\" + \"b\" == \"ab\" && \"a\" != \"b\"", "none", false},
-	{"true and not false or false", "none", false},
-	{"0x1F + 0b101 + 0o17 + 1e2 + 1.5e-1", "none", false},
-	{"`raw\\n` + \"esc\\n\\u6653\"", "none", false},
-	{"n + l[0]", "small", false},
-	{"if(b, s, \"f\") + string(l)", "small", false},
+	{"1 + 2 * 3", "none", false, false},
+	{"n + x * 2 - 1", "map", false, false},
+	{"(n - 2) % 5 == 0 && b", "map", false, false},
+	{"if(n > 40, s, \"no\")", "map", false, false},
+	{"n > 100 ? \"big\" : n > 10 ? \"mid\" : \"small\"", "struct", false, false},
+	{"b || l[10] > 0", "map", false, false},
+	{"!b && l[10] > 0", "map", false, false},
+	{"len(l) + len(s) + len(m)", "map", false, false},
+	{"l.len() + s.len()", "struct", false, false},
+	{"get(l, 1, 0) + get(l, 99, -1)", "map", false, false},
+	{"get(m, \"k2\", 0) + get(m, \"zz\", 7)", "map", false, false},
+	{"get(mi, 2, \"none\")", "struct", false, false},
+	{"isset(m, \"k1\") && !isset(m, \"nope\")", "map", false, false},
+	{"if(isset(m, \"q\"), m[\"q\"], -1)", "map", false, false},
+	{"m[\"k3\"] + mi.len()", "struct", false, false},
+	{"o.id + o.name.len()", "map", false, false},
+	{"o.tags[1] + \"!\"", "struct", false, false},
+	{"get(p.b, 0) + p.a", "map", false, false},
+	{"get(p.c, \"dflt\")", "struct", false, false},
+	{"[1, 2, 3] == l", "map", false, false},
+	{"[\"k1\": 1, \"k2\": 2, \"k3\": 3, \"k4\": 4] == m", "map", false, false},
+	{"union(l, [5, 1])", "map", false, false},
+	{"intersect(l, [3, 2, 7])", "struct", false, false},
+	{"diff(l, [3])", "map", false, false},
+	{"union(ls, [\"c\"]) == [\"a\", \"b\", \"c\"]", "map", false, false},
+	{"max(l) - min(l) + max(n, x)", "map", false, false},
+	{"abs(0 - x) + ceil(x) + floor(x) + round(x)", "struct", false, false},
+	{"2 ^ 3 ^ 2", "none", false, false},
+	{"string(n) + string(b) + string(x)", "map", false, false},
+	{"string(l)", "map", false, false},
+	{"string(m)", "map", false, false},
+	{"string(o)", "struct", false, false},
+	{"string([1: [\"a\": 1, \"b\": 2], 2: [\"c\": 3, \"d\": 4]])", "none", false, false},
+	{"match(\"^h.*o$\", s)", "map", false, false},
+	{"match(\"^[0-9]+$\", string(n))", "struct", false, false},
+	{"{id: n, name: s, inner: {l: l, m: m}}", "map", false, false},
+	{"{id: n, name: s}.name", "struct", false, false},
+	{"[{a: 1, b: \"x\"}, {a: 2, b: \"y\"}][1].b", "none", false, false},
+	{"[n: s, n + 1: \"t\"]", "map", false, false},
+	{"[[1, 2], [3], l]", "map", false, false},
+	{"ll[0][1] + ll[1][0]", "struct", false, false},
+	{"lo[1].name + lo[0].tags.len().string()", "map", false, false},
+	{"mo[\"u\"].id + mo[\"v\"].id", "struct", false, false},
+	{"'2020-01-02 03:04:05' < '2020-01-02 03:04:06'", "none", false, false},
+	{"t - '2020-09-13 12:26:40 UTC'", "map", false, false},
+	{"strtotime(\"2021-05-06 07:08:09 UTC\") > t", "struct", false, false},
+	{"strtotime(\"2021-05-06 07:08:09 Asia/Tokyo\") - strtotime(\"2021-05-06 07:08:09 Europe/Paris\")", "none", false, false},
+	{"strtotime(\"@86400\") == '1970-01-02 00:00:00 UTC'", "none", false, false},
+	{"'2022-02-03T04:05:06+08:00' >= t", "map", false, false},
+	{"[] == l || [:] == m", "map", false, false},
+	{"len([]) + len([:])", "none", false, false},
+	{"get([], 0, 5)", "none", false, false},
+	{"-n + +x", "map", false, false},
+	{"n >= 42 && n <= 42 && n != 41 && x < 3", "struct", false, false},
+	{"\"a\" + \"b\" == \"ab\" && \"a\" != \"b\"", "none", false, false},
+	{"true and not false or false", "none", false, false},
+	{"0x1F + 0b101 + 0o17 + 1e2 + 1.5e-1", "none", false, false},
+	{"`raw\\n` + \"esc\\n\\u6653\"", "none", false, false},
+	{"n + l[0]", "small", false, false},
+	{"if(b, s, \"f\") + string(l)", "small", false, false},
 	// user functions
-	{"tr(n) + inc(tr(x))", "map", true},
-	{"when(b, tr(1), tr(2)) + when(!b, tr(3), tr(4))", "map", true},
-	{"when(n > 1, when(b, tr(\"aa\"), tr(\"ab\")), tr(\"b\"))", "struct", true},
-	{"orelse(tr(b), tr(l[99] > 0))", "map", true},
-	{"if(orelse(false, tr(n > 1)), first(l, 0), first([], 9))", "map", true},
-	{"s <> \"x\" <> tr(\"y\")", "map", true},
-	{"[tr(1), tr(2), tr(3)]", "none", true},
-	{"{a: tr(\"1\"), b: tr(\"2\")}", "none", true},
-	{"[tr(\"k\"): tr(1), tr(\"j\"): tr(2)]", "none", true},
-	{"first(union(l, [inc(n)]), 0)", "map", true},
+	{"tr(n) + inc(tr(x))", "map", true, false},
+	{"when(b, tr(1), tr(2)) + when(!b, tr(3), tr(4))", "map", true, false},
+	{"when(n > 1, when(b, tr(\"aa\"), tr(\"ab\")), tr(\"b\"))", "struct", true, false},
+	{"orelse(tr(b), tr(l[99] > 0))", "map", true, false},
+	{"if(orelse(false, tr(n > 1)), first(l, 0), first([], 9))", "map", true, false},
+	{"s <> \"x\" <> tr(\"y\")", "map", true, false},
+	{"[tr(1), tr(2), tr(3)]", "none", true, false},
+	{"{a: tr(\"1\"), b: tr(\"2\")}", "none", true, false},
+	{"[tr(\"k\"): tr(1), tr(\"j\"): tr(2)]", "none", true, false},
+	{"first(union(l, [inc(n)]), 0)", "map", true, false},
 	// ill-typed / failing
-	{"n + s", "map", false},
-	{"undefined_name + 1", "map", false},
-	{"l[0] +", "map", false},
-	{"[1, \"a\"]", "none", false},
-	{"o.nope", "struct", false},
-	{"get(p.b, \"x\")", "map", false},
-	{"p.b + 1", "map", false},
-	{"l[99]", "map", false},
-	{"m[\"absent\"]", "struct", false},
-	{"match(\"(\", s)", "map", false},
-	{"if(b, 1, \"x\")", "map", false},
+	{"n + s", "map", false, false},
+	{"undefined_name + 1", "map", false, false},
+	{"l[0] +", "map", false, false},
+	{"[1, \"a\"]", "none", false, false},
+	{"o.nope", "struct", false, false},
+	{"get(p.b, \"x\")", "map", false, false},
+	{"p.b + 1", "map", false, false},
+	{"l[99]", "map", false, false},
+	{"m[\"absent\"]", "struct", false, false},
+	{"match(\"(\", s)", "map", false, false},
+	{"if(b, 1, \"x\")", "map", false, false},
 }
 
 var tzNames = []string{"UTC", "Asia/Tokyo", "Europe/Paris", "America/New_York", "Asia/Shanghai", "Europe/London",
@@ -671,10 +752,13 @@ func genProg(r *rng, user bool) Prog {
 	if r.chance(0.4) {
 		env = "struct"
 	}
-	return Prog{src, env, user}
+	return Prog{src, env, user, false}
 }
 
 func pickProg(r *rng, user bool) Prog {
+	if r.chance(0.2) {
+		return pickGeneric(r, user)
+	}
 	if r.chance(0.5) {
 		return genProg(r, user)
 	}
